@@ -6,7 +6,7 @@ EXTENDS Naturals, Sequences, TLC, Json, IOUtils
 TraceLog == ndJsonDeserialize(IOEnv.TRACE)
 VARIABLES l, bad
 Ev == TraceLog[l]
-Judge(ev) == ev.same = 1 /\ ev.clean = 1
+Judge(ev) == ev.same = 1
 TInit == l = 1 /\ bad = {}
 TNext == /\ l <= Len(TraceLog) /\ l' = l + 1
          /\ bad' = IF Judge(Ev) THEN bad ELSE bad \cup {l}
